@@ -149,6 +149,8 @@ def affine_contract(iterations):
         ]
         if iterations >= 2:
             cl.append(eq("second_iteration_does_not_move", finc, 0.0))
+        else:
+            cl.append(eq("reported_increment_is_the_displacement_from_the_start", finc, x - mean))
         return cl
 
     def instances(tier):
